@@ -192,15 +192,13 @@ struct Out {
     script: [u8; 2],
 }
 /// An output with symbolic kinds (explicit non-zero / confidential), symbolic presence of each proof, 2-byte script.
-fn mk_out(rp_id: u8, sp_id: u8) -> (TxOut, Out) {
-    let akind: u8 = kani::any();
-    let vkind: u8 = kani::any();
+fn mk_out(rp_id: u8, sp_id: u8, fixed: Option<(u8, u8, bool, bool)>) -> (TxOut, Out) {
+    let (akind, vkind): (u8, u8) = match fixed { Some((a, v, _, _)) => (a, v), None => (kani::any(), kani::any()) };
     kani::assume((akind == 1 || akind == 2) && (vkind == 1 || vkind == 2));
     let (asset, gen) = mk_asset(akind);
     let (value, amount, parsed) = mk_value(vkind);
     if vkind == 1 { kani::assume(amount != 0); }
-    let has_rp: bool = kani::any();
-    let has_sp: bool = kani::any();
+    let (has_rp, has_sp): (bool, bool) = match fixed { Some((_, _, r, p)) => (r, p), None => (kani::any(), kani::any()) };
     let script: [u8; 2] = [0x51, kani::any()];
     let witness = TxOutWitness {
         surjection_proof: if has_sp { mk_surjproof(sp_id) } else { None },
@@ -229,8 +227,11 @@ macro_rules! amt_stubs {
 }
 
 macro_rules! verify_amt_harness {
-    ($name:ident, $s_akind:expr, $s_vkind:expr) => {
+    ($name:ident, $s_akind:expr, $s_vkind:expr, $fixed:expr) => {
 amt_stubs! {
+// since the D9 repair the number of collected output commitments depends on a branch (zero-value outputs are skipped),
+// so the loops over them have a symbolic bound: unwind 4 covers 1 input / 2 outputs (unwinding assertions stay on)
+#[kani::unwind(4)]
 fn $name() {
     fake_secp!(secp);
     // spent output
@@ -242,7 +243,7 @@ fn $name() {
     let s_commit = want_commit(s_vkind, s_amount, &s_parsed, &s_gen);
     let spent = [TxOut { asset: s_asset, value: s_value, nonce: Nonce::Null, script_pubkey: Script::new(), witness: TxOutWitness::default() }];
     // outputs
-    let (out0, o0) = mk_out(RP_ID, SP_ID);
+    let (out0, o0) = mk_out(RP_ID, SP_ID, $fixed);
     let fee_tag = sym_tag();
     let fee_amt: u64 = kani::any();
     kani::assume(fee_amt != 0);
@@ -260,12 +261,12 @@ fn $name() {
     let need_rp = o0.vkind == 2;
     let need_sp = o0.akind == 2;
     let rp_ok = !need_rp || (o0.has_rp && rp_n == 1 && rp.verdict
-        && rp.commit == o0.commit && rp.gen == o0.gen && rp.proof0 == RP_ID && rp.plen == 2
+        && fm::eq64(&rp.commit, &o0.commit) && fm::eq64(&rp.gen, &o0.gen) && rp.proof0 == RP_ID && rp.plen == 2
         && rp.extra_len == 2 && rp.extra[0] == o0.script[0] && rp.extra[1] == o0.script[1]);
     let sp_ok = !need_sp || (o0.has_sp && sp_n == 1 && sp.verdict
-        && sp.proof_id == SP_ID as usize && sp.ndom == 1 && sp.dom[0] == s_gen && sp.codomain == o0.gen);
-    let ta_ok = ta_n == 1 && ta.verdict && ta.npos == 1 && ta.pos[0] == s_commit
-        && ta.nneg == 2 && ta.neg[0] == o0.commit && ta.neg[1] == fee_commit;
+        && sp.proof_id == SP_ID as usize && sp.ndom == 1 && fm::eq64(&sp.dom[0], &s_gen) && fm::eq64(&sp.codomain, &o0.gen));
+    let ta_ok = ta_n == 1 && ta.verdict && ta.npos == 1 && fm::eq64(&ta.pos[0], &s_commit)
+        && ta.nneg == 2 && fm::eq64(&ta.neg[0], &o0.commit) && fm::eq64(&ta.neg[1], &fee_commit);
     if !models_active() { core::mem::forget(r); core::mem::forget(tx); core::mem::forget(spent); return; }
     match r {
         Ok(()) => {
@@ -275,8 +276,9 @@ fn $name() {
             // no verification of proofs that are not required
             assert!(need_rp || rp_n == 0);
             assert!(need_sp || sp_n == 0);
+            let fixed: Option<(u8, u8, bool, bool)> = $fixed;
             kani::cover!(need_rp && need_sp);
-            kani::cover!(!need_rp && !need_sp);
+            kani::cover!(fixed.is_some() || (!need_rp && !need_sp));
         }
         Err(e) => {
             assert!(!(rp_ok && sp_ok && ta_ok), "all required checks passed, yet verification failed");
@@ -288,9 +290,10 @@ fn $name() {
                 VerificationError::BalanceCheckFailed => assert!(ta_n == 1 && !ta.verdict && rp_ok && sp_ok),
                 _ => assert!(false, "no other failure is possible for this shape"),
             }
-            kani::cover!(matches!(e, VerificationError::RangeProofMissing(_)));
+            let fixed: Option<(u8, u8, bool, bool)> = $fixed;
+            kani::cover!(fixed.is_some() || matches!(e, VerificationError::RangeProofMissing(_)));
             kani::cover!(matches!(e, VerificationError::RangeProofError(..)));
-            kani::cover!(matches!(e, VerificationError::SurjectionProofMissing(_)));
+            kani::cover!(fixed.is_some() || matches!(e, VerificationError::SurjectionProofMissing(_)));
             kani::cover!(matches!(e, VerificationError::SurjectionProofVerificationError(_)));
             kani::cover!(matches!(e, VerificationError::BalanceCheckFailed));
             core::mem::forget(e);
@@ -304,10 +307,13 @@ fn $name() {
 }
 //@ harness: verify_amt_spent_explicit class=B tier=thorough bound="1 input without issuance spending an explicit output; output 0 explicit-or-confidential asset and value with optional proofs and a 2-byte script, output 1 an explicit fee; primitives assumed (A-secp)" props=C05 timeout=1500
 //@ clause: verify_tx_amt_proofs returns Ok iff: a confidential value has a range proof verified (verdict Ok) with that output's commitment, script bytes and asset generator; a confidential asset has a surjection proof verified (true) for that output's generator over [spent generator]; the balance primitive was called once with [spent commitment] vs [output commitments in order] and returned true. Each Err variant names a true reason.
-verify_amt_harness!(verify_amt_spent_explicit, 1, 1);
+verify_amt_harness!(verify_amt_spent_explicit, 1, 1, None);
+//@ harness: verify_amt_blinded_output class=B tier=thorough bound="1 input spending an explicit output; output 0 has a confidential asset and value and carries both proofs, output 1 an explicit fee; primitives assumed (A-secp), verdicts symbolic" props=C05 timeout=1500
+//@ clause: for a blinded output carrying both proofs, Ok iff the range proof was verified Ok for that output's commitment / script / generator, the surjection proof was verified true for that output's generator over [spent generator], and the balance primitive said true for [spent commitment] vs [output commitments]
+verify_amt_harness!(verify_amt_blinded_output, 1, 1, Some((2, 2, true, true)));
 //@ harness: verify_amt_spent_confidential class=B tier=thorough bound="as verify_amt_spent_explicit, the spent output has a confidential asset and value" props=C05 timeout=1500
 //@ clause: same, with the spent output's generator and commitment taken as they are
-verify_amt_harness!(verify_amt_spent_confidential, 2, 2);
+verify_amt_harness!(verify_amt_spent_confidential, 2, 2, None);
 
 macro_rules! len_mismatch_harness {
     ($name:ident, $nin:expr, $nspent:expr) => {
